@@ -323,6 +323,11 @@ func (w *World) addNodeWithIdentity(identity string) *Node {
 		if name == "leader.election.success" {
 			w.S.Yield("metric.leader.started")
 		}
+		// the first statement of WatcherHub.AddWatcher, before it takes the hub lock: whatever a watch
+		// does before subscribing is separated from the subscription by a scheduling point
+		if name == "watcher_hub.add_watcher" {
+			w.S.Yield("metric.hub.add")
+		}
 	}
 	var kv storage.KvStorage = h
 	if w.Sc.MetricsKV {
@@ -555,7 +560,7 @@ func (w *World) Teardown() {
 	// let cancellation propagate (hub.delete tasks)
 	w.S.Quiesce(2000)
 	kill := map[string]bool{"seq.idle": true, "hub.recv": true, "retry.tick": true, "hub.delete": true,
-		"seq.commit": true, "seq.cache": true, "seq.bcast": true, "consume": true, "client.wait": true}
+		"seq.commit": true, "seq.cache": true, "seq.bcast": true, "seq.sent": true, "consume": true, "client.wait": true}
 	w.S.KillParked(kill)
 	UninstallHooks()
 	for _, c := range w.closers {
